@@ -1,6 +1,8 @@
 """Run the registered checks against a seeded change kept under /verif/seeded/<id>/ (patch.diff, demo.py, meta.json):
-apply the patch to /repo, run the demonstration (must FAIL), run `./check <property> --tier <tier>` (must print a VIOLATION
-line), undo the patch, and record the outcome in meta.json["detection"].  /repo is always restored, also on errors.
+apply the patch (to /repo itself with --in-place, which is what the registered commands see; by default to a scratch git
+worktree of /repo's HEAD that the check is pointed at through SF_REPO, so that several seeded changes can be evaluated at
+once and /repo is never touched), run the demonstration (must FAIL), run `./check <property> --tier <tier>` (must print a
+VIOLATION line), undo / remove, and record the outcome in meta.json["detection"].
 
 usage: python3 harness/seedtest.py seeded/<id> [--tier quick] [--checks C01,C05] [--no-record]"""
 import argparse
@@ -24,34 +26,55 @@ def main():
     ap.add_argument("--tier", default="quick")
     ap.add_argument("--checks", default=None)
     ap.add_argument("--no-record", action="store_true")
+    ap.add_argument("--in-place", action="store_true")
     a = ap.parse_args()
     d = Path(a.dir).resolve()
     meta = json.loads((d / "meta.json").read_text())
     checks = a.checks.split(",") if a.checks else [meta["property"]]
-    if sh(f"git -C {REPO} status --porcelain").stdout.strip():
-        print("refusing: /repo has uncommitted changes")
-        sys.exit(2)
-    out = {}
-    try:
-        r = sh(f"git -C {REPO} apply --3way {d / 'patch.diff'}")
+    import os, tempfile
+    if a.in_place:
+        repo = REPO
+        if sh(f"git -C {REPO} status --porcelain").stdout.strip():
+            print("refusing: /repo has uncommitted changes")
+            sys.exit(2)
+    else:
+        repo = tempfile.mkdtemp(prefix="seedwt_", dir="/tmp")
+        os.rmdir(repo)
+        r = sh(f"git -C {REPO} worktree add -q --detach {repo} HEAD")
         if r.returncode != 0:
-            r = sh(f"git -C {REPO} apply {d / 'patch.diff'}")
+            print("cannot create worktree:", r.stderr)
+            sys.exit(2)
+    out = {}
+    env = dict(os.environ, SF_REPO=repo)
+    try:
+        r = sh(f"git -C {repo} apply --3way {d / 'patch.diff'}")
+        if r.returncode != 0:
+            r = sh(f"git -C {repo} apply {d / 'patch.diff'}")
         if r.returncode != 0:
             print("patch does not apply:", r.stderr[-500:])
             sys.exit(2)
-        demo = sh(f"cd {d} && PYTHONPATH={REPO} /venv/bin/python -W ignore demo.py", timeout=900)
+        demo = sh(f"cd {d} && PYTHONPATH={repo} /venv/bin/python -W ignore demo.py", timeout=900)
         out["demo_on_changed"] = "FAIL" if demo.returncode != 0 else "PASS"
         for c in checks:
             t0 = time.time()
-            r = sh(f"cd {V} && ./check {c} --tier {a.tier}", timeout=7200)
+            ev = V / "evidence" / f"{c}.json"       # evidence must describe runs on the unchanged tree: keep it
+            saved = ev.read_text() if ev.exists() else None
+            try:
+                r = sh(f"cd {V} && ./check {c} --tier {a.tier}", timeout=7200, env=env)
+            finally:
+                if saved is not None:
+                    ev.write_text(saved)
             viol = [l for l in r.stdout.splitlines() if l.startswith("VIOLATION")]
             inputs = [l.strip() for l in r.stdout.splitlines() if l.strip().startswith("failing input")][:4]
             out[c] = dict(rc=r.returncode, violation=viol[:1], failing_inputs=inputs, wall_s=round(time.time() - t0, 1),
                           tier=a.tier, no_failing_input_found=any("no-failing-input-found" in v for v in viol))
             print(c, "rc", r.returncode, viol[:1], inputs[:2])
     finally:
-        sh(f"git -C {REPO} reset -q --hard HEAD")
-        sh(f"git -C {REPO} checkout -- .")
+        if a.in_place:
+            sh(f"git -C {REPO} reset -q --hard HEAD")
+            sh(f"git -C {REPO} checkout -- .")
+        else:
+            sh(f"git -C {REPO} worktree remove --force {repo}")
     demo2 = sh(f"cd {d} && PYTHONPATH={REPO} /venv/bin/python -W ignore demo.py", timeout=900)
     out["demo_on_unchanged"] = "PASS" if demo2.returncode == 0 else "FAIL"
     print("demo changed:", out["demo_on_changed"], "unchanged:", out["demo_on_unchanged"])
